@@ -18,7 +18,7 @@ PROPERTY = 'C20'
 LEVEL = 'exploration'
 
 CODECS = ['latin_1', 'cp500', 'cp037']
-META = ['', ',', '"', '""', ';', ' x', 'x ', "a,b\"c", '[!]^|']
+META = ['', ',', '"', '""', ';', ' x', 'x ', "a,b\"c", '[!]^|', 'CAF\xc9', '\xd1\xfc\xa3']
 
 
 def columns():
@@ -139,6 +139,14 @@ def convert(case, csv_text, workdir):
     from cardutil.cli import mci_csv_to_ipm, mci_ipm_to_csv
     from cardutil.config import config
     enc, blocked = case['enc'], case['blocked']
+    env_dir = None
+    if case.get('envcfg'):
+        # CARDUTIL_CONFIG points at a directory holding cardutil.json (here: the packaged configuration, sorted keys)
+        import json as _json
+        env_dir = os.path.join(workdir, 'cfgdir')
+        os.makedirs(env_dir, exist_ok=True)
+        with open(os.path.join(env_dir, 'cardutil.json'), 'w') as f:
+            _json.dump(config, f, sort_keys=True)
     if case['entry'] == 'func':
         ipm = io.BytesIO()
         mci_csv_to_ipm.mci_csv_to_ipm(in_csv=io.StringIO(csv_text), out_ipm=ipm, config=config, out_encoding=enc,
@@ -158,7 +166,10 @@ def convert(case, csv_text, workdir):
     with open(inp, 'w', newline='') as f:
         f.write(csv_text)
     argv0 = sys.argv
+    env0 = os.environ.get('CARDUTIL_CONFIG')
     try:
+        if env_dir:
+            os.environ['CARDUTIL_CONFIG'] = env_dir
         with quiet():
             if case['entry'] == 'cli':
                 mci_csv_to_ipm.cli_run(in_filename=inp, out_filename=ipm, out_encoding=enc,
@@ -184,6 +195,10 @@ def convert(case, csv_text, workdir):
                 outp = ipm + '.csv'
     finally:
         sys.argv = argv0
+        if env0 is None:
+            os.environ.pop('CARDUTIL_CONFIG', None)
+        else:
+            os.environ['CARDUTIL_CONFIG'] = env0
     if rc == -1:
         raise RuntimeError('mci_ipm_to_csv reported a data error')
     with open(outp, newline='') as f:
@@ -201,7 +216,8 @@ def check_case(case, acc, workdir=None):
         w.writeheader()
         w.writerows(rows)
         acc.case((tuple(cols), case.get('rows'), tuple(case.get('variant', [])), case.get('omit'), case['enc'],
-                  case['blocked'], case['entry'], case.get('sweep'), case.get('day'), case.get('year')),
+                  case['blocked'], case['entry'], case.get('sweep'), case.get('day'), case.get('year'),
+                  case.get('envcfg')),
                  nontrivial=len(cols) > 1,
                  outcome='%s/%s' % (case['entry'], case['enc']))
         try:
@@ -258,6 +274,11 @@ def enumerate_cases(tier, seed):
                 add(de_cols + pds_cols, rows, v, omit, env)
                 add(de_cols + ['DE48'], rows, v, omit, env)
     add([], 1, ['plain', 0], 0, all_envs)
+    for vi in range(len(META) * 2):
+        for col in ('DE63', 'DE42', 'PDS0158'):
+            for enc, blocked, entry in [e for e in all_envs if e[2] in ('cli', 'argv')][vi % 3::3]:
+                cases.append({'cols': ['MTI', col], 'rows': 2, 'variant': ['meta', vi], 'omit': 0, 'enc': enc,
+                              'blocked': blocked, 'entry': entry, 'seed': seed, 'envcfg': True})
     for year in (2024, 1972, 2068):
         for day in range(366 if year != 2068 else 365):
             if year != 2024 and day % 5:
